@@ -552,7 +552,7 @@ def expandArguments (T : PTables) : Nat → Buf → MacroDef → Nat → M (List
       | none => crash "parser.py:generate_replacements:arguments[tok.arg-1]"
       | some g => do
         let e ← expandSequence T fuel (mkLang start (curLang st) false true true :: g) none []
-        modify (fun s => { s with extracted := s.extracted ++ [e.1] })
+        modify (fun s => { s with extracted := s.extracted ++ [e.1], foreign := s.foreign || s.nest != 1 })
     if mac.handler != .none then do
       let h ← callHandler T fuel mac.handler r.2 mac r.1.args start
       pure (mkAction start :: h, r.2)
@@ -647,7 +647,7 @@ def parserWork (T : PTables) : Nat → Str → M (List Tok)
   | fuel + 1, latex => do
     let st0 ← get
     let saved := st0.latex
-    modify (fun s => { s with latex := latex })
+    modify (fun s => { s with latex := latex, nest := s.nest + 1 })
     let sc := scan T.toTables latex
     modify (fun s => { s with diags := s.diags ++ sc.diags })
     let st ← get
@@ -659,7 +659,7 @@ def parserWork (T : PTables) : Nat → Str → M (List Tok)
           ("cannot find closing LaTeX comment ".toList ++ reprStr st.skipEnd) bpos
         pure (sp.1 ++ er ++ sp.2.2))
     let r ← expandSequence T fuel toks none []
-    modify (fun s => { s with latex := saved })
+    modify (fun s => { s with latex := saved, nest := s.nest - 1 })
     pure r.1
 
 /-- `init_package` -/
@@ -859,9 +859,10 @@ def callHandler (T : PTables) : Nat → Handler → Buf → MacroDef → List (L
         | none => latexError T.toTables ("could not read file ".toList ++ reprStr file) pos
         | some f => do
           let saved := st1.extracted
+          let savedF := st1.foreign
           modify (fun s => { s with extracted := [] })
           let toks ← parserWork T fuel f.2
-          modify (fun s => { s with extracted := saved })
+          modify (fun s => { s with extracted := saved, foreign := savedF })
           pure (filterSetToks toks pos true)
     | .loadModule cls => do
       let a0 ← arg 0; let a1 ← arg 1
@@ -974,7 +975,7 @@ def expandMathSection (T : PTables) : Nat → Buf → Nat → List Str → Optio
       else if tok.kind == .xend then do
         let r ← endEnvironment T fuel rest tok envStop
         if r.1.2 then pure { out := fin (out ++ r.1.1), term := some tok, buf := r.2 }
-        else expandMathSection T fuel r.2 start toksStop envStop (out ++ r.1.1)
+        else expandMathSection T fuel (r.1.1 ++ r.2) start toksStop envStop out
       else if tok.kind == .xmacro then do
         let st ← get
         if st.mathTextMacros.contains tok.txt then do
